@@ -325,8 +325,9 @@ def clamp_rule(chk, db):
             if not ok:
                 chk.violation("CLAMP", construct, "clamp-other-object", "%s: the test measures what is left of `%s` but the length is replaced by the "
                               "size of `%s`" % (astx.loc(f, x), measured, rr), {"where": astx.loc(f)})
-    if n < 4:
-        chk.analysis_broken("CLAMP: only %d length clamps found in basic_inplace_string (floor 4)" % n)
+    if n < 1:
+        # the clamps may legitimately be gathered in one helper; none at all means the rule lost its subject
+        chk.analysis_broken("CLAMP: no length clamp found in basic_inplace_string")
 
 
 META_EXTRA = 'SLOTS-W / SLOTS-U (grown characters written; range writes below the size slot); NULFREE (no NUL-sensitive routine reachable from counted operations); CLAMP (length clamps measure one object).'
